@@ -462,6 +462,9 @@ func checkMid(t ev.T, test string, c MidCase) MidCase {
 		// (observed: 106 operations for 10 directories of 3 files); the bound grows with the fan-out, not with the work left
 		limit = int64(16 + 12*(c.Shape.Dirs+c.Shape.Files+c.Shape.Nested+1))
 		need = 3 * limit
+		// ... and each of them may already be past its last look at the context when it ends: one removal per item in
+		// flight (7 seen once in six million thorough cases, with 9 directories of 6 entries in flight)
+		mutLimit = int64(bMut + c.Shape.Dirs + c.Shape.Files + c.Shape.Nested + 1)
 	}
 	if strings.HasPrefix(c.Entry, "Zip") {
 		mutLimit = 8 + int64(c.Shape.Dirs*(c.Shape.Files+c.Shape.Nested+1))/40 // central directory: ~100 bytes per entry, flushed in 4 KiB writes
